@@ -31,10 +31,14 @@ def atoi (s : String) : Option Int :=
     let n : Int := ds.foldl (fun acc c => acc * 10 + ((c.toNat - '0'.toNat : Nat) : Int)) 0
     some (if neg then -n else n)
 
-/-- the per-matrix checks, in the order of the code; the number is the position of the failing check -/
+/-- `bits.OnesCount(n) == 1` -/
+def isPow2 (n : Nat) : Bool := 2 ^ n.log2 == n
+
+/-- the per-matrix checks, in the order of the code; the number names the failing check (12 and 14 were added by the fix for F15) -/
 def localErr (tm : TM) : Option Nat :=
   if tm.mh ≠ tm.mw then some 1
   else if tm.th ≠ tm.tw then some 2
+  else if !isPow2 tm.tw then some 12
   else match atoi tm.idText with
     | none => some 3
     | some k => if k ≠ tm.id then some 4 else if tm.nvar ≠ 0 then some 5 else none
@@ -53,6 +57,12 @@ def pairErr (prev tm : TM) : Option Nat :=
   else if !ratioOK prev tm then some 11
   else none
 
+/-- the checks on the first matrix (`previousTM == nil`): its key is 0 and it is a single tile -/
+def firstErr (tm : TM) : Option Nat :=
+  if tm.id ≠ 0 then some 6
+  else if tm.mw ≠ 1 then some 14
+  else none
+
 /-- `IsQuadTree`: `none` = accepted, `some k` = rejected by check `k` -/
 def isQuadTreeFrom (prev : Option TM) : List TM → Option Nat
   | [] => none
@@ -60,7 +70,7 @@ def isQuadTreeFrom (prev : Option TM) : List TM → Option Nat
     match localErr tm with
     | some e => some e
     | none =>
-      match (match prev with | none => none | some p => pairErr p tm) with
+      match (match prev with | none => firstErr tm | some p => pairErr p tm) with
       | some e => some e
       | none => isQuadTreeFrom (some tm) rest
 
